@@ -150,6 +150,7 @@ fn check_civil_inner(z: &Zone, c: i128) -> CaseResult {
     expect_ts("tz-to-timestamp", z.tz.to_timestamp(dt), Some(compat))?;
     // zoned flavours
     let az = z.tz.to_ambiguous_zoned(dt);
+    ensure!(az.is_ambiguous() == !matches!(want, Civil::Unambiguous(_)) && at.is_ambiguous() == az.is_ambiguous(), "classification-is-ambiguous", "is_ambiguous() = {} / {} for {:?}", at.is_ambiguous(), az.is_ambiguous(), want);
     ensure!(kind_of(&az.offset()) == want, "classification-zoned", "to_ambiguous_zoned classification {:?} want {:?}", az.offset(), want);
     let zs = [
         ("zoned-compatible", az.clone().compatible(), Some(compat)),
